@@ -32,6 +32,11 @@ def check_group(case, ev):
     an, exc = guarded(G.mk, cfg, fam)
     if exc is not None:
         return core.exc_finding(exc, case, "ctor/")
+    for v in case.get("pre", []):
+        # earlier undo requests on the same instance (the images of the pairs must not depend on them)
+        _, exc = guarded(an.deanonymize, v)
+        if exc is not None:
+            return core.exc_finding(exc, case, "deanonymize/")
     imgs = []
     for a in addrs:
         y, exc = guarded(an.anonymize, a)
@@ -45,6 +50,8 @@ def check_group(case, ev):
     cls = ["v%d" % fam, "mode-" + cfg.get("mode", "?"), "B-%s" % ("0" if B == 0 else "32" if B == 32 else "mid")]
     if cfg.get("networks"):
         cls.append("with-networks")
+    if case.get("pre"):
+        cls.append("after-undo-requests")
     bad = None
     for i in range(len(addrs)):
         for j in range(i + 1, len(addrs)):
@@ -217,7 +224,7 @@ def check_bulk(case, ev):
     return None
 
 
-REPLAY = {"bulk": check_bulk, "pairs": check_group, "exh_real": check_exh_real, "exh_generic": check_exh_generic}
+REPLAY = {"bulk": check_bulk, "bulk_long": check_bulk, "pairs": check_group, "exh_real": check_exh_real, "exh_generic": check_exh_generic}
 
 # ---------------------------------------------------------------- generators
 
@@ -245,7 +252,10 @@ def _group_case(draw):
     if B and draw(st.booleans()):
         # differ only inside the preserved host bits
         addrs.append(addrs[0] ^ draw(st.integers(1, (1 << B) - 1)) if B else addrs[0])
-    return {"fam": fam, "cfg": cfg, "addrs": addrs}
+    pre = []
+    if draw(st.integers(0, 3)) == 0:
+        pre = [draw(st.one_of(st.sampled_from(addrs), G.neighbour(draw(st.sampled_from(addrs)), W, min_shared=W - 12))) for _ in range(draw(st.integers(1, 3)))]
+    return {"fam": fam, "cfg": cfg, "addrs": addrs, "pre": pre}
 
 
 @st.composite
@@ -253,8 +263,10 @@ def _bulk_case(draw, n):
     fam = draw(st.sampled_from([4, 4, 4, 6]))
     W = 32 if fam == 4 else 128
     cfg = draw(G.config())
+    if n >= 20000:
+        fam, W = 4, 32  # long runs: IPv4 with no preserved host bits fills the memo fastest
     if fam == 4:
-        cfg["B4"] = draw(st.sampled_from([0, 0, 8, 4]))
+        cfg["B4"] = 0 if n >= 20000 else draw(st.sampled_from([0, 0, 8, 4]))
     else:
         cfg["B6"] = draw(st.sampled_from([0, 32]))
     dense = draw(G.addr_near(G.effective_prefixes(cfg) or ["10.0.0.0/8"])) if fam == 4 else draw(G.v6_int)
@@ -262,7 +274,9 @@ def _bulk_case(draw, n):
 
 
 def t_bulk(shard, nshards, seed, ev, known, n=2, size=6000):
-    return core.hyp_drive(_bulk_case(size), check_bulk, n, seed, ev, known, check_name="bulk", shrink=False)
+    # the first examples Hypothesis generates are the simplest ones (empty lists, zero values): skip them
+    cases = core.collect_cases(_bulk_case(size), n + 3, seed)[3:]
+    return core.enum_drive(cases, check_bulk, ev, known, "bulk")
 
 
 def t_pairs(shard, nshards, seed, ev, known, n=1000):
@@ -332,6 +346,7 @@ def plan(tier):
     return [
         Task("pairs", t_pairs, shards=4 if q else 16, n=1500 if q else 40000),
         Task("bulk", t_bulk, shards=4 if q else 16, n=2 if q else 10, size=7000 if q else 14000),
+        Task("bulk_long", t_bulk, shards=2 if q else 8, n=1 if q else 4, size=30000 if q else 60000),
         Task("exh_real", t_exh_real, shards=6 if q else 16, w=10 if q else 16, ncfg=99),
         Task("exh_generic", t_exh_generic, shards=4 if q else 16, wmax=9 if q else 12),
     ]
